@@ -16,9 +16,15 @@ impl Log {
         self.0.lock().unwrap().push((what.to_string(), h, r, q));
     }
 }
+static SLOW_DROP_US: std::sync::atomic::AtomicU64 = std::sync::atomic::AtomicU64::new(0);
 struct Guard(Log, u32);
 impl Drop for Guard {
     fn drop(&mut self) {
+        // what a callback owns may be slow to release: the drop is only complete (and logged) afterwards
+        let us = SLOW_DROP_US.load(Ordering::SeqCst);
+        if us > 0 {
+            std::thread::sleep(std::time::Duration::from_micros(us));
+        }
         self.0.push("drop", self.1, 0, 0);
     }
 }
@@ -45,6 +51,8 @@ pub fn run() {
         let stop = a.get("stop").cloned().unwrap_or_else(|| "none".into());
         let nshut: usize = a.get("nshut").map(|s| s.parse().unwrap()).unwrap_or(1);
         let late: u32 = a.get("late").map(|s| s.parse().unwrap()).unwrap_or(0);
+        let wave2: u32 = a.get("wave2").map(|s| s.parse().unwrap()).unwrap_or(0);
+        SLOW_DROP_US.store(a.get("slowdrop").map(|s| s.parse().unwrap()).unwrap_or(0), Ordering::SeqCst);
         PANICKED.store(false, Ordering::SeqCst);
         let log = Log(Arc::new(Mutex::new(Vec::new())));
         let proxy = Arc::new(RouterProxy::new());
@@ -119,6 +127,40 @@ pub fn run() {
             }
             std::thread::sleep(std::time::Duration::from_millis(2));
         }
+        // second wave: routes registered after earlier routes have closed, while others are still live
+        let mut wave2_keep = Vec::new();
+        if wave2 > 0 {
+            for j in 0..wave2 {
+                let h = 500 + j;
+                let (tx, rx) = ipc::channel::<(u32, u32)>().unwrap();
+                let g = Guard(log.clone(), h);
+                let l = log.clone();
+                proxy.add_route(
+                    rx.to_opaque(),
+                    Box::new(move |m| {
+                        let _keep = &g;
+                        match m.to::<(u32, u32)>() {
+                            Ok((r, q)) => l.push("call", h, r, q),
+                            Err(_) => l.push("badmsg", h, 0, 0),
+                        }
+                    }),
+                );
+                let _ = tx.send((h, 0));
+                let _ = tx.send((h, 1));
+                wave2_keep.push(tx);
+            }
+            // the routes of the first wave that are still connected get one more message each
+            for (i, tx) in kept.iter() {
+                if !plan[*i].3 {
+                    let _ = tx.send((*i as u32, plan[*i].0 + plan[*i].1));
+                }
+            }
+            let want = expected_calls + 2 * wave2 as usize + kept.iter().filter(|(i, _)| !plan[*i].3).count();
+            let t2 = std::time::Instant::now();
+            while log.0.lock().unwrap().iter().filter(|e| e.0 == "call").count() < want && t2.elapsed().as_secs() < 4 {
+                std::thread::sleep(std::time::Duration::from_millis(2));
+            }
+        }
         // crossbeam routes: drain what was forwarded
         let mut xlog: Vec<(u32, Vec<(u32, u32)>, bool)> = Vec::new();
         for (i, r) in xrecv.lock().unwrap().iter() {
@@ -150,9 +192,16 @@ pub fn run() {
         match stop.as_str() {
             "shutdown" => {
                 let mut hs = Vec::new();
+                let at_ret: Arc<Mutex<Vec<usize>>> = Arc::new(Mutex::new(Vec::new()));
                 for _ in 0..nshut {
                     let p = proxy.clone();
-                    hs.push(std::thread::spawn(move || p.shutdown()));
+                    let (l, ar) = (log.clone(), at_ret.clone());
+                    hs.push(std::thread::spawn(move || {
+                        p.shutdown();
+                        // the very instant shutdown() returns: how many callbacks have been dropped?
+                        let n = l.0.lock().unwrap().iter().filter(|e| e.0 == "drop" && e.1 < 500).count();
+                        ar.lock().unwrap().push(n);
+                    }));
                 }
                 // routes offered while / after the shutdown is in progress
                 let mut late_handles = Vec::new();
@@ -231,9 +280,11 @@ pub fn run() {
                     "{}",
                     json!({"kind":"router","id":id,"stop":stop,"stop_ok":stop_ok,"panicked":PANICKED.load(Ordering::SeqCst),
                            "log_before_stop": fin[..before_stop.min(fin.len())], "log_at_return": at_return[before_stop.min(at_return.len())..],
-                           "log_after": fin[at_return.len().min(fin.len())..], "xlog": xlog, "xafter": xafter, "late": late_log.len()})
+                           "log_after": fin[at_return.len().min(fin.len())..], "xlog": xlog, "xafter": xafter, "late": late_log.len(),
+                           "drops_at_return": at_ret.lock().unwrap().clone()})
                 );
                 drop(late_handles);
+                drop(wave2_keep);
                 continue;
             },
             "proxydrop" => {
@@ -288,5 +339,6 @@ pub fn run() {
                    "xlog": xlog, "xafter": if stop == "none" { vec![] } else { xafter }, "late": 0})
         );
         drop(kept);
+        drop(wave2_keep);
     }
 }
